@@ -115,16 +115,17 @@ type recCache[T any] struct {
 	mu     sync.Mutex
 	inner  graphql.Cache[T]
 	events []cacheEvent
-	ever   map[string]T // every key ever added (eviction ignored) with its last value
+	ever   map[string]T   // every key ever added (eviction ignored) with its last value
+	all    map[string][]T // every value ever added for the key (concurrent misses add one each)
 	show   func(T) string
 	// query cache only: hash of each document when it was added, and a check that a hit returns the
 	// very document that was added for that key
-	docHash  map[string]uint64
+	docHash  map[*ast.QueryDocument]uint64
 	unlawful []string
 }
 
 func newRec[T any](inner graphql.Cache[T], show func(T) string) *recCache[T] {
-	return &recCache[T]{inner: inner, ever: map[string]T{}, show: show, docHash: map[string]uint64{}}
+	return &recCache[T]{inner: inner, ever: map[string]T{}, all: map[string][]T{}, show: show, docHash: map[*ast.QueryDocument]uint64{}}
 }
 
 func (c *recCache[T]) Get(ctx context.Context, key string) (T, bool) {
@@ -133,10 +134,18 @@ func (c *recCache[T]) Get(ctx context.Context, key string) (T, bool) {
 	defer c.mu.Unlock()
 	if ok {
 		c.events = append(c.events, cacheEvent{"get-hit", key, c.show(v)})
-		if prev, was := c.ever[key]; !was {
+		if prev, was := c.all[key]; !was {
 			c.unlawful = append(c.unlawful, "hit on a key that was never added: "+key)
-		} else if any(prev) != any(v) {
-			c.unlawful = append(c.unlawful, "hit returned a value that is not the one added for "+key)
+		} else {
+			found := false
+			for _, p := range prev {
+				if any(p) == any(v) {
+					found = true
+				}
+			}
+			if !found {
+				c.unlawful = append(c.unlawful, "hit returned a value that was never added for "+key)
+			}
 		}
 	} else {
 		c.events = append(c.events, cacheEvent{"get-miss", key, ""})
@@ -148,8 +157,9 @@ func (c *recCache[T]) Add(ctx context.Context, key string, v T) {
 	c.mu.Lock()
 	c.events = append(c.events, cacheEvent{"add", key, c.show(v)})
 	c.ever[key] = v
+	c.all[key] = append(c.all[key], v)
 	if d, ok := any(v).(*ast.QueryDocument); ok {
-		c.docHash[key] = hashDoc(d)
+		c.docHash[d] = hashDoc(d)
 	}
 	c.mu.Unlock()
 	c.inner.Add(ctx, key, v)
@@ -168,10 +178,13 @@ func (c *recCache[T]) changedDocs() []string {
 	c.mu.Lock()
 	defer c.mu.Unlock()
 	var bad []string
-	for k, v := range c.ever {
-		if d, ok := any(v).(*ast.QueryDocument); ok {
-			if hashDoc(d) != c.docHash[k] {
-				bad = append(bad, k)
+	for k, vs := range c.all {
+		for _, v := range vs {
+			if d, ok := any(v).(*ast.QueryDocument); ok {
+				if hashDoc(d) != c.docHash[d] {
+					bad = append(bad, k)
+					break
+				}
 			}
 		}
 	}
